@@ -158,6 +158,17 @@ def run(ctx):
     for i, h in enumerate(hists):
         for j in range(per):
             records.append(record_hist(fk, bs[(i * per + j) % len(bs)], h, ctx.rng, len(records)))
+    # the program is read between an edit and a summary (a cache refilled by one view must not hide the staleness of another)
+    summ = ["imports", "calls", "flags", "severity", "findings", "nonstd", "unsafe"]
+    k = 0
+    for e in ["insert", "setitem", "delitem", "append", "extend", "pop", "setslice", "insert_python", "append_python",
+              "insert_magic_int", "insert_function_call", "insert_python_obj", "reverse", "remove", "iadd", "delslice",
+              "insert_python_last", "clear_refill"]:
+        for v1 in summ:
+            for mid in ("source", "ast"):
+                v2 = summ[(k + 3) % len(summ)]
+                k += 1
+                records.append(record_hist(fk, bs[k % len(bs)], [v1, e, mid, v2, v1], ctx.rng, len(records)))
     # longer random histories
     alle = ["insert", "setitem", "delitem", "append", "extend", "iadd", "pop", "remove", "reverse", "setslice", "delslice",
             "clear_refill", "insert_python", "insert_python_last", "append_python", "insert_magic_int",
